@@ -32,8 +32,23 @@ CHECKS = {
     "C06": dict(level="model_checking", ref="DESIGN.md §5 C06",
                 text="RefTagRows/RefTokenCands (TLA+) are the oracle: enumerated tag-model families and random models with predicted or hand-set boundaries",
                 note=TB, technique=TECH),
+    "C07": dict(level="fault_enumeration", ref="DESIGN.md §5 C07",
+                text="VpFiles gives the outcome for every (operation, length, truncation, fault, header, trailing bytes); TLC proves the step-wise reader refines it (MC_Files) and validates every event of an exhaustive fault enumeration on real serialisations (Trace_Files)",
+                note=TB + "; files: shipped model, generated models with tag models, a model with multi-byte varint lengths", technique=TECH),
+    "C08": dict(level="model_checking", ref="DESIGN.md §5 C08",
+                text="MC_Lifecycle: TLC proves reused = fresh on the life-cycle model for all histories up to the depth and the real object is replayed on every history; random long histories validated by Trace_Lifecycle; MC_Concurrent explores all interleavings of the predict steps; real threads validated by Trace_Concurrent",
+                note=TB + "; real-thread schedules are sampled, not enumerated", technique=TECH),
+    "C13": dict(level="exploration", ref="DESIGN.md §5 C13",
+                text="the TLC-generated histories of C01/C06 replayed under every feature subset; Trace_Pair requires every build to agree with the default build",
+                note=TB + "; quick: 11 builds, thorough: 31 + portable-simd on nightly", technique=TECH),
+    "C14": dict(level="model_checking", ref="DESIGN.md §5 C14",
+                text="enumerated and random models through serialize_to_vec/deserialize_from_slice_unchecked with trailing bytes; Trace_Pair requires identical observations and rest = trailing",
+                note=TB, technique=TECH),
+    "C15": dict(level="model_checking", ref="DESIGN.md §5 C15",
+                text="VpFilters (incl. UAX#29 rules transcribed over character classes) is the oracle for every sentence up to the bound x every label vector x every filter, each applied twice",
+                note=TB + "; GB9c (Indic conjuncts) outside the generated alphabets", technique=TECH),
 }
 NOT_APPLICABLE = [
     {"property_id": p, "reason": "check under construction in this session (see DESIGN.md §13 build order); not claimed yet"}
-    for p in ["C07", "C08", "C09", "C10", "C11", "C12", "C13", "C14", "C15", "C16", "C17", "C18", "C19", "C20"]
+    for p in ["C09", "C10", "C11", "C12", "C16", "C17", "C18", "C19", "C20"]
 ]
